@@ -12,7 +12,7 @@ RECHECK = 10   # cases are whole schedule explorations: fewer of them are re-exe
 CHUNK = 4
 RULE = ('the real Equalizer on virtual multiprocessing / virtual time: every vector over {ok, worker exits, hangs, answers late, hangs '
         'trapping SIGTERM} up to the length bound (all positions: first, last, consecutive) x recycle rate {1,2,3} x timeout {0,1,3} virtual '
-        'seconds, consumed fully, and for a sub-grid closed after k items / aborted by a consumer exception after k items for every k, '
+        'seconds, consumed fully, and for a sub-grid closed or dropped after k items (k = 0 included: before anything was taken) / aborted by a consumer exception after k items for every k, '
         'under EVERY schedule of parent and workers up to the preemption bound: termination (no deadlock, horizon never hit), no virtual '
         'process alive afterwards, virtual time per comparison <= timeout + 2 (dead worker reported within one poll), replays per worker '
         '<= recycle rate, number of workers started == what the policy implies. thorough: conformance runs with real processes.')
@@ -48,8 +48,8 @@ def gen_cases(tier, seed):
                 yield {'vec': list(vec), 'recycle': 1, 'timeout': 1, 'bound': 1, 'consumer': ['drain'], 'timers': 1}
                 yield {'vec': list(vec), 'recycle': 2, 'timeout': 1, 'bound': 1, 'consumer': ['drain'], 'timers': 1}
             if n >= 2:
-                for k in range(1, n + 1):
-                    for kind in ('close', 'raise', 'drop'):
+                for k in range(0, n + 1):
+                    for kind in ('close', 'raise', 'drop') if k else ('close', 'drop'):
                         yield {'vec': list(vec), 'recycle': 2, 'timeout': 1, 'bound': 2 if n <= 2 else 1, 'consumer': [kind, k]}
     if tier == 'thorough':
         for vec in [('hang',), ('exit',), ('equal', 'hang'), ('hang', 'hang'), ('exit', 'exit', 'equal'), ('equal', 'equal', 'hang'), ('hang', 'equal', 'exit'),
